@@ -144,9 +144,10 @@ Print Assumptions C14_stored_bytes.
 
 (* a symbol keeps the name it was written with ([hash] = symbol_value, an oracle) *)
 Theorem C14_symbol : forall (hash : str -> N) name,
+  simple_symbol_name (simple_parse_add_symbol hash name) (hash (symbol_key name)) = Some name /\
   basic_get_symbol_string (fst (basic_parse_add_symbol chars_count hash 0 name))
     (snd (basic_parse_add_symbol chars_count hash 0 name)) (hash (symbol_key name)) = Ok (Some name).
-Proof. exact basic_symbol_keeps_name. Qed.
+Proof. intros hash name. split; [exact (simple_symbol_keeps_name hash name) | exact (basic_symbol_keeps_name hash name)]. Qed.
 Print Assumptions C14_symbol.
 
 (* the byte-length headers of the code before the fixes are refuted by a
